@@ -115,7 +115,7 @@ func expectedView(tar []Ent) (map[string]*xnode, bool) {
 		case "fifo":
 			n.mode |= os.ModeNamedPipe
 		}
-		if e.Kind != "dir" && p != "" {
+		if e.Kind != "dir" {
 			n.nlink = 1
 		}
 		view[p] = n
@@ -249,13 +249,8 @@ func oracleServe(c Case, obs serveObs, ctx *hx.Ctx) (problems []string) {
 			bad("%q: mtime %d, the tar says %d", p, mt, w.mtime)
 		}
 		// link counts: names of a file; "." + parent entry + sub-directories of a directory
-		wantN := w.nlink
-		if w.kind == "dir" && p == "" && w.explicit && a.NumLink == wantN-1 {
-			// A root directory that has its own tar entry ("./") is served with one link less than any other
-			// directory (initFields skips the "name references this entry" increment for it). Counted, accepted.
-			ctx.Count("quirk.explicit_root_nlink_minus_one")
-		} else if a.NumLink != wantN {
-			bad("%q: link count %d, expected %d", p, a.NumLink, wantN)
+		if a.NumLink != w.nlink {
+			bad("%q: link count %d, expected %d", p, a.NumLink, w.nlink)
 		}
 		// FUSE attributes
 		f := g.Fuse
